@@ -16,7 +16,9 @@ inductive Router | provider | legacy
   deriving DecidableEq, Repr, Inhabited
 
 /-- `op.Authorize` after parsing and request-object processing: the missing-parameter checks, the
-    `validation` closure (client lookup, then `ValidateAuthRequestClient`), storing, login redirect -/
+    `validation` closure (client lookup, then `ValidateAuthRequestClient`), storing, login redirect.
+    The `if client == nil { client, err = GetClientByClientID … }` step between validation and storing is for a custom
+    `AuthorizeValidator` only: here `client` is the value the inlined closure obtained, never nil. -/
 def providerAuthorizeCore (now : Int) (o : UriOracle) (d : AuthDeps) (p : AzProvider) (authReq : AuthRequestData) : List Write :=
   if authReq.ClientID == "" then Gen.AuthRequestError now o Go.nil "error:auth request is missing client_id" p
   else if authReq.RedirectURI == "" then Gen.AuthRequestError now o Go.nil "error:auth request is missing redirect_uri" p
